@@ -4,58 +4,91 @@ import (
 	"bytes"
 	"fmt"
 	"math/rand"
+	"os"
 	"sort"
 	"testing"
+	"time"
 
 	"github.com/nspcc-dev/neo-go/pkg/core/storage"
 	"github.com/nspcc-dev/neo-go/pkg/core/storage/dbconfig"
 )
 
 func TestProbe(t *testing.T) {
-	s, err := storage.NewLevelDBStore(dbconfig.LevelDBOptions{DataDirectoryPath: t.TempDir()})
+	dir := t.TempDir()
+	s, err := storage.NewLevelDBStore(dbconfig.LevelDBOptions{DataDirectoryPath: dir})
 	if err != nil {
 		t.Fatal(err)
 	}
 	defer s.Close()
-	r := rand.New(rand.NewSource(1))
+	r := rand.New(rand.NewSource(2))
 	al := []byte{0, 0x70, 0xff}
 	bad := 0
-	for round := 0; round < 400 && bad < 5; round++ {
-		model := map[string][]byte{}
-		for i := 0; i < 6; i++ {
+	useGC := os.Getenv("PROBE_GC") != ""
+	model := map[string][]byte{}
+	for round := 0; round < 8000 && bad < 3; round++ {
+		batch := map[string][]byte{}
+		for i := 1 + r.Intn(3); i > 0; i-- {
 			k := []byte{0x70}
 			for j := r.Intn(3); j > 0; j-- {
 				k = append(k, al[r.Intn(3)])
 			}
-			v := []byte{byte(round), byte(i)}
-			if r.Intn(4) == 0 {
-				v = nil
+			if r.Intn(3) == 0 {
+				batch[string(k)] = nil
 				delete(model, string(k))
 			} else {
+				v := []byte{byte(round), byte(round >> 8), byte(i)}
+				batch[string(k)] = v
 				model[string(k)] = v
 			}
-			s.PutChangeSet(nil, map[string][]byte{string(k): v})
-			// ranged check
+		}
+		if err := s.PutChangeSet(nil, batch); err != nil {
+			t.Fatal(err)
+		}
+		for q := 0; q < 3; q++ {
 			p := []byte{0x70}
 			for j := r.Intn(3); j > 0; j-- {
 				p = append(p, al[r.Intn(3)])
 			}
-			var exp []string
+			back := r.Intn(2) == 0
+			var ks []string
 			for mk := range model {
 				if bytes.HasPrefix([]byte(mk), p) {
-					exp = append(exp, mk)
+					ks = append(ks, mk)
 				}
 			}
-			sort.Strings(exp)
+			sort.Strings(ks)
+			var exp []string
+			for _, mk := range ks {
+				exp = append(exp, mk+"="+string(model[mk]))
+			}
+			if back {
+				for i, j := 0, len(exp)-1; i < j; i, j = i+1, j-1 {
+					exp[i], exp[j] = exp[j], exp[i]
+				}
+			}
 			var got []string
-			s.Seek(storage.SeekRange{Prefix: p}, func(k, v []byte) bool { got = append(got, string(k)); return true })
+			s.Seek(storage.SeekRange{Prefix: p, Backwards: back}, func(k, v []byte) bool { got = append(got, string(k)+"="+string(v)); return true })
 			if fmt.Sprintf("%x", exp) != fmt.Sprintf("%x", got) {
-				fmt.Printf("round %d step %d prefix %x: exp %x got %x\n", round, i, p, exp, got)
+				fmt.Printf("round %d prefix %x back %v:\n exp %x\n got %x\n", round, p, back, exp, got)
 				bad++
 			}
 		}
-		if err := s.SeekGC(storage.SeekRange{}, func(k, v []byte) (bool, bool) { return false, true }); err != nil {
-			t.Fatal(err)
+		if r.Intn(3) == 0 {
+			time.Sleep(time.Duration(r.Intn(4000)) * time.Microsecond)
+		}
+		if useGC && round%7 == 6 {
+			if os.Getenv("PROBE_GC") == "batch" {
+				del := map[string][]byte{}
+				s.Seek(storage.SeekRange{}, func(k, v []byte) bool { del[string(k)] = nil; return true })
+				if err := s.PutChangeSet(nil, del); err != nil {
+					t.Fatal(err)
+				}
+			} else if err := s.SeekGC(storage.SeekRange{}, func(k, v []byte) (bool, bool) { return false, true }); err != nil {
+				t.Fatal(err)
+			}
+			model = map[string][]byte{}
 		}
 	}
+	b, _ := os.ReadFile(dir + "/LOG")
+	fmt.Println("errors in LOG:", bytes.Count(b, []byte("error")), "moves:", bytes.Count(b, []byte("table@move")))
 }
